@@ -117,7 +117,12 @@ def L.stepBack (l : L) : L :=
 @[simp] theorem L.atEOL_right (l : L) : (l.atEOL).1.right = l.right := by
   simp [L.atEOL]
 
-def endsWith (tokRev : List Rune) (c : Nat) : Bool := match tokRev with | r :: _ => r.cp == c | [] => false
+/-- `strings.HasSuffix(l.all(), c)` for a one-byte `c`: the token is not empty and the rune before the
+    cursor is `c` -/
+def L.lastIs (l : L) (c : Nat) : Bool :=
+  match l.tokRev, l.left with
+  | _ :: _, r :: _ => r.cp == c
+  | _, _ => false
 
 def skipWs (l : L) : L :=
   match h : l.right with
@@ -204,15 +209,13 @@ def lexTaskBody (l : L) : L × Tag :=
 
 /-- `for strings.HasSuffix(l.all(), "\r") { l.pos-- }` -/
 def stripCR (l : L) : L :=
-  match h : l.tokRev with
-  | [] => l
-  | r :: _ => if r.cp == CR then
-      match h2 : l.left with
-      | [] => l
-      | _ :: _ => stripCR l.stepBack
-    else l
+  if h : l.lastIs CR then stripCR l.stepBack else l
 termination_by l.tokRev.length
-decreasing_by simp [L.stepBack, h, h2]
+decreasing_by
+  unfold L.lastIs at h
+  split at h
+  · rename_i h1 h2; simp [L.stepBack, h1, h2]
+  · cases h
 
 def lexTaskCommandsF : Nat → L → L × Tag
   | 0, l => (l, .spin)
@@ -225,7 +228,7 @@ def lexTaskCommandsF : Nat → L → L × Tag
     else if l.hasPrefix [RBRACE, RBRACE] then lexTaskCommandsF fuel (l.absorb 2)
     else if r.cp == RBRACE then
       let l := l.backup
-      let l := if endsWith l.tokRev SP then l.stepBack else l
+      let l := if l.lastIs SP then l.stepBack else l
       let l := stripCR l
       let l := if !l.tokRev.isEmpty then l.emit .command else l
       (skipWs l, .rightBrace)
